@@ -56,6 +56,7 @@ def create_dag_from_session(session: Session) -> nx.DiGraph:
     _check_if_dag_has_cycles(dag)
     _check_if_tasks_have_the_same_products(dag, session.config["paths"])
     dag = _modify_dag(session=session, dag=dag)
+    _check_if_dag_has_cycles(dag)
     select_tasks_by_marks_and_expressions(session=session, dag=dag)
     return dag
 
